@@ -131,3 +131,32 @@ func VerifLifecycle(ctx context.Context, walDir string, cs *certstore.Store, bac
 	}
 	return r.Stop(ctx)
 }
+
+// VerifWAL is the write-ahead log instantiated with the node's own entry type (walEntry).
+type VerifWAL struct {
+	w *writeaheadlog.WriteAheadLog[walEntry, *walEntry]
+}
+
+func VerifOpenWAL(dir string) (*VerifWAL, error) {
+	w, err := writeaheadlog.Open[walEntry](dir)
+	if err != nil {
+		return nil, err
+	}
+	return &VerifWAL{w: w}, nil
+}
+
+func (v *VerifWAL) Append(m *gpbft.GMessage) error { return v.w.Append(walEntry{m}) }
+func (v *VerifWAL) Close() error                    { return v.w.Close() }
+func (v *VerifWAL) Purge(keep uint64) error         { return v.w.Purge(keep) }
+
+func (v *VerifWAL) All() ([]*gpbft.GMessage, error) {
+	es, err := v.w.All()
+	if err != nil {
+		return nil, err
+	}
+	out := make([]*gpbft.GMessage, len(es))
+	for i := range es {
+		out[i] = es[i].Message
+	}
+	return out, nil
+}
